@@ -137,7 +137,8 @@ class Recorder:
 
     NSAMPLES = 3
 
-    def __init__(self, sub, known, budget_s, shrink_s):
+    def __init__(self, sub, known, budget_s, shrink_s, casefd=None):
+        self.casefd = casefd        # last case under evaluation (crashes)
         self.sub = sub
         self.known = known          # list of (what, predicate)
         self.evaluations = 0
@@ -162,6 +163,10 @@ class Recorder:
                 self.status = "inconclusive"
                 raise _Stop("budget")
         self.evaluations += 1
+        if self.casefd is not None:
+            data = json.dumps(case, allow_nan=True).encode()
+            os.pwrite(self.casefd, data, 0)
+            os.ftruncate(self.casefd, len(data))
         try:
             info = self.sub.oracle(case)
         except Skip:
@@ -256,7 +261,7 @@ def _known_for(module, subname):
     return out
 
 
-def run_task(args):
+def run_task(args, casefd=None):
     """Run one (sub-check, shard) in a worker process."""
     modname, subname, shard, nshards, tier, base_seed = args
     import importlib
@@ -264,7 +269,7 @@ def run_task(args):
     sub = next(s for s in module.SUBS if s.name == subname)
     ti = 0 if tier == "quick" else 1
     rec = Recorder(sub, _known_for(module, subname), sub.budget[ti],
-                   20 if tier == "quick" else 120)
+                   20 if tier == "quick" else 120, casefd=casefd)
     seed = derive_seed(base_seed, subname, shard)
     try:
         if sub.enumerate is not None:
@@ -338,6 +343,145 @@ def _run_machine(sub, rec, tier, seed, n, steps):
 
 
 # --------------------------------------------------------------------------
+# Crash-robust execution: every task (and every confirmation replay) runs in
+# a forked child; a child killed by a signal (segfault, SIGFPE in a kernel)
+# is a result, not a hang.
+def _child_setup():
+    # kernels print progress on C stdout; verdict lines come from the parent
+    dn = os.open(os.devnull, os.O_WRONLY)
+    os.dup2(dn, 1)
+
+
+def _describe_status(status):
+    if os.WIFSIGNALED(status):
+        import signal
+        sig = os.WTERMSIG(status)
+        try:
+            name = signal.Signals(sig).name
+        except ValueError:
+            name = str(sig)
+        return f"killed by signal {name}"
+    return f"exited with status {os.WEXITSTATUS(status)}"
+
+
+def isolated(fn, timeout=600):
+    """Run fn() in a forked child. Returns ("ok", value) | ("crash", text)
+    | ("raised", traceback text)."""
+    import pickle
+    tmpdir = OUT / "tmp"
+    tmpdir.mkdir(parents=True, exist_ok=True)
+    resfile = tmpdir / f"iso-{os.getpid()}-{time.time_ns()}.res"
+    sys.stdout.flush()
+    sys.stderr.flush()
+    pid = os.fork()
+    if pid == 0:
+        code = 0
+        try:
+            _child_setup()
+            try:
+                out = ("ok", fn())
+            except BaseException:
+                out = ("raised", traceback.format_exc()[-3000:])
+            resfile.write_bytes(pickle.dumps(out))
+        except BaseException:
+            code = 3
+        finally:
+            os._exit(code)
+    t0 = time.time()
+    while True:
+        wpid, status = os.waitpid(pid, os.WNOHANG)
+        if wpid == pid:
+            break
+        if time.time() - t0 > timeout:
+            os.kill(pid, 9)
+            os.waitpid(pid, 0)
+            return ("crash", f"no answer within {timeout} s")
+        time.sleep(0.005)
+    try:
+        if os.WIFEXITED(status) and os.WEXITSTATUS(status) == 0 \
+                and resfile.exists():
+            return pickle.loads(resfile.read_bytes())
+        return ("crash", _describe_status(status))
+    finally:
+        if resfile.exists():
+            resfile.unlink()
+
+
+def run_tasks(tasks, nproc):
+    """Run tasks in forked children, at most nproc at a time."""
+    import pickle
+    tmpdir = OUT / "tmp"
+    tmpdir.mkdir(parents=True, exist_ok=True)
+    pending = list(tasks)
+    running = {}
+    results = []
+    sys.stdout.flush()
+    sys.stderr.flush()
+    k = 0
+    while pending or running:
+        while pending and len(running) < nproc:
+            t = pending.pop(0)
+            k += 1
+            base = tmpdir / f"task-{os.getpid()}-{k}"
+            resfile, casefile = Path(f"{base}.res"), Path(f"{base}.case")
+            pid = os.fork()
+            if pid == 0:
+                code = 0
+                try:
+                    _child_setup()
+                    fd = os.open(casefile, os.O_RDWR | os.O_CREAT | os.O_TRUNC)
+                    res = run_task(t, casefd=fd)
+                    resfile.write_bytes(pickle.dumps(res))
+                except BaseException:
+                    try:
+                        resfile.write_bytes(pickle.dumps({
+                            "sub": t[1], "shard": t[2], "kind": "?",
+                            "evaluations": 0, "skipped": 0, "nt": set(),
+                            "labels": {}, "samples": [], "failure": None,
+                            "nfailing": 0, "known_hits": {},
+                            "status": "error", "wall_s": 0.0,
+                            "error": traceback.format_exc()[-3000:]}))
+                    except BaseException:
+                        code = 3
+                finally:
+                    os._exit(code)
+            running[pid] = (t, resfile, casefile, time.time())
+        pid, status = os.wait()
+        if pid not in running:
+            continue
+        t, resfile, casefile, tstart = running.pop(pid)
+        if os.WIFEXITED(status) and os.WEXITSTATUS(status) == 0 \
+                and resfile.exists():
+            results.append(pickle.loads(resfile.read_bytes()))
+        else:
+            last = None
+            try:
+                last = json.loads(casefile.read_text())
+            except Exception:
+                pass
+            results.append({
+                "sub": t[1], "shard": t[2], "kind": "?", "evaluations": 0,
+                "skipped": 0, "nt": set(), "labels": {}, "samples": [],
+                "failure": None, "nfailing": 0, "known_hits": {},
+                "status": "crash", "crash": _describe_status(status),
+                "lastcase": last, "wall_s": round(time.time() - tstart, 2)})
+        for f in (resfile, casefile):
+            if f.exists():
+                f.unlink()
+    return results
+
+
+def replay_isolated(module, subname, case):
+    """replay_case in a forked child: returns None (holds), a message
+    (violation) or raises RuntimeError (harness problem)."""
+    kind, val = isolated(lambda: replay_case(module, subname, case))
+    if kind == "ok":
+        return val
+    if kind == "crash":
+        return f"the interpreter process was {val} while evaluating the case"
+    raise RuntimeError(val)
+
+
 def replay_case(module, subname, case):
     """Run the oracle once on a saved case. Returns None or the message."""
     sub = next((s for s in module.SUBS if s.name == subname), None)
@@ -388,7 +532,7 @@ def run_property(module, tier, base_seed, build_info, nproc=None,
             if only and r["subcheck"] not in only:
                 continue
             nreg += 1
-            msg = replay_case(module, r["subcheck"], r["case"])
+            msg = replay_isolated(module, r["subcheck"], r["case"])
             if msg is not None:
                 hit = None
                 for what, pred in _known_for(module, r["subcheck"]):
@@ -413,13 +557,7 @@ def run_property(module, tier, base_seed, build_info, nproc=None,
                           base_seed))
     results = []
     if tasks:
-        if nproc == 1 or len(tasks) == 1:
-            results = [run_task(t) for t in tasks]
-        else:
-            ctx = mp.get_context("fork")
-            with ctx.Pool(min(nproc, len(tasks))) as pool:
-                results = list(pool.imap_unordered(run_task, tasks,
-                                                   chunksize=1))
+        results = run_tasks(tasks, nproc)
 
     # 3. merge
     per_sub = {}
@@ -441,6 +579,15 @@ def run_property(module, tier, base_seed, build_info, nproc=None,
         if r["status"] == "error":
             s["status"] = "error"
             errors.append((r["sub"], r.get("error", "")))
+        elif r["status"] == "crash":
+            if r.get("lastcase") is not None:
+                s["status"] = "violation"
+                violations.append((r["sub"], r["lastcase"],
+                                   "interpreter " + r["crash"]))
+            else:
+                s["status"] = "error"
+                errors.append((r["sub"], "worker " + r["crash"]
+                               + " before any case"))
         elif r["failure"] is not None:
             s["status"] = "violation"
             case, msg = r["failure"]
@@ -466,7 +613,7 @@ def run_property(module, tier, base_seed, build_info, nproc=None,
     for subname, (k, case, msg) in sorted(best.items()):
         # confirm outside Hypothesis before reporting
         try:
-            confirmed = replay_case(module, subname, case)
+            confirmed = replay_isolated(module, subname, case)
         except Exception as e:
             confirmed = None
             errors.append((subname, f"replay raised {e!r}"))
